@@ -3,7 +3,7 @@
     equals the specification reading ([Spec]: simultaneous substitution) under
     the hygiene hypothesis, hence [C09_ok] holds of the model's expansion. *)
 From Coq Require Import List NArith Bool Arith Lia Permutation.
-From MWF Require Import Base.Str Base.Util Expand.PyStr Expand.PyStrProofs Expand.Subst Expand.SubstProofs.
+From MWF Require Import Base.Str Base.Util Base.UtilLemmas Expand.PyStr Expand.PyStrProofs Expand.Subst Expand.SubstProofs.
 Import ListNotations.
 Local Notation length := List.length.
 
@@ -414,4 +414,209 @@ Proof.
   - destruct (stage Spec c) as [|insts] eqn:Es; auto. simpl.
     apply insts_eqb_refl. eapply stage_spec_names; eauto.
   - unfold hyg in H. rewrite !andb_true_iff in H. tauto.
+Qed.
+
+(* ------------------------------------------------------------------------ *)
+(** * The parameter table: well formed, and what it maps each token to *)
+
+Lemma isword_name_char : forall c, isword c = true -> name_charb c = true /\ c <> DOT.
+Proof.
+  intros c H. split.
+  - unfold name_charb. apply negb_true_iff.
+    destruct (N.eqb c DOLLAR) eqn:E1; [apply N.eqb_eq in E1; subst; discriminate H|].
+    destruct (N.eqb c LPAR) eqn:E2; [apply N.eqb_eq in E2; subst; discriminate H|].
+    destruct (N.eqb c RPAR) eqn:E3; [apply N.eqb_eq in E3; subst; discriminate H|].
+    reflexivity.
+  - intros E. subst. discriminate H.
+Qed.
+
+Lemma word_wf_name : forall k, forallb isword k = true -> wf_nameb k = true.
+Proof.
+  intros k H. unfold wf_nameb. rewrite forallb_forall in *. intros c Hc.
+  apply isword_name_char. auto.
+Qed.
+
+Lemma wf_nameb_app : forall a b, wf_nameb (a ++ b) = wf_nameb a && wf_nameb b.
+Proof. intros. unfold wf_nameb. apply forallb_app. Qed.
+
+Lemma tok_inj : forall a b, tok a = tok b -> a = b.
+Proof.
+  intros a b H. unfold tok in H. inversion H as [H']. apply app_inj_tail in H'. tauto.
+Qed.
+
+Lemma tok_is_token : forall n, wf_nameb n = true -> is_token (tok n).
+Proof. intros n H. exists n. auto. Qed.
+
+(** words are dot-free: a dotted name splits uniquely at its first dot *)
+Lemma word_dot_split : forall k k' a b,
+  forallb isword k = true -> forallb isword k' = true ->
+  k ++ DOT :: a = k' ++ DOT :: b -> k = k' /\ a = b.
+Proof.
+  induction k as [|c k IH]; intros k' a b Hk Hk' E.
+  - destruct k' as [|c' k']; simpl in E.
+    + inversion E. auto.
+    + inversion E; subst. rewrite forallb_forall in Hk'.
+      specialize (Hk' DOT (or_introl eq_refl)). discriminate Hk'.
+  - destruct k' as [|c' k']; simpl in E.
+    + inversion E; subst. rewrite forallb_forall in Hk.
+      specialize (Hk DOT (or_introl eq_refl)). discriminate Hk.
+    + inversion E; subst. cbn [forallb] in Hk, Hk'. apply andb_true_iff in Hk, Hk'.
+      destruct (IH k' a b) as [E1 E2]; try tauto. subst. auto.
+Qed.
+
+Lemma word_no_dot : forall k k' a, forallb isword k' = true -> k ++ DOT :: a <> k'.
+Proof.
+  intros k k' a Hk' E. rewrite forallb_forall in Hk'.
+  assert (Hin : In DOT k') by (rewrite <- E; apply in_or_app; right; left; reflexivity).
+  apply Hk' in Hin. apply isword_name_char in Hin. destruct Hin as [_ Hin]. congruence.
+Qed.
+
+Lemma NoDup_map_inj {A B} : forall (f : A -> B) l,
+  (forall a b, In a l -> In b l -> f a = f b -> a = b) -> NoDup l -> NoDup (map f l).
+Proof.
+  induction l as [|x l IH]; intros Hinj Hnd; simpl; [constructor|].
+  inversion Hnd; subst. constructor.
+  - intros Hin. apply in_map_iff in Hin. destruct Hin as [y [Ey Hy]].
+    assert (y = x) by (apply Hinj; auto; [right; auto|left; auto]). subst. contradiction.
+  - apply IH; auto. intros a b Ha Hb. apply Hinj; right; auto.
+Qed.
+
+Lemma NoDup_map_inv {A B} : forall (f : A -> B) l, NoDup (map f l) -> NoDup l.
+Proof.
+  induction l as [|x l IH]; intros H; [constructor|]. simpl in H. inversion H; subst.
+  constructor; auto. intros Hin. apply H2. apply in_map. exact Hin.
+Qed.
+
+Lemma NoDup_map_key {A B} : forall (f : A -> B) l a b,
+  NoDup (map f l) -> In a l -> In b l -> f a = f b -> a = b.
+Proof.
+  induction l as [|x l IH]; intros a b H Ha Hb E; [contradiction|].
+  simpl in H. inversion H; subst. destruct Ha as [Ha|Ha], Hb as [Hb|Hb]; subst; auto.
+  - exfalso. apply H2. rewrite E. apply in_map. exact Hb.
+  - exfalso. apply H2. rewrite <- E. apply in_map. exact Ha.
+Qed.
+
+Definition LABEL_SUF : str := s ".label".
+Definition NAME_SUF : str := s ".name".
+
+Lemma keys_okb_spec : forall ps, keys_okb ps = true ->
+  NoDup (map p_key ps) /\ (forall p, In p ps -> forallb isword (p_key p) = true).
+Proof.
+  intros ps H. unfold keys_okb in H. apply andb_true_iff in H. destruct H as [H1 H2].
+  split; [apply str_nodupb_NoDup; exact H1|]. rewrite forallb_forall in H2. exact H2.
+Qed.
+
+Lemma param_table_tokens : forall ps i,
+  tokens (param_table ps i) =
+  map (fun p => tok (p_key p ++ LABEL_SUF)) ps ++
+  map (fun p => tok (p_key p)) ps ++
+  map (fun p => tok (p_key p ++ NAME_SUF)) ps.
+Proof.
+  intros. unfold tokens, param_table. rewrite !map_app, !map_map. reflexivity.
+Qed.
+
+Theorem param_table_wf : forall ps i, keys_okb ps = true -> wf_table (param_table ps i).
+Proof.
+  intros ps i H. apply keys_okb_spec in H. destruct H as [Hnd Hw]. split.
+  - intros t Ht. rewrite param_table_tokens in Ht.
+    apply in_app_or in Ht. destruct Ht as [Ht|Ht]; [|apply in_app_or in Ht; destruct Ht as [Ht|Ht]];
+      apply in_map_iff in Ht; destruct Ht as [p [E Hp]]; subst t; apply tok_is_token.
+    + rewrite wf_nameb_app, (word_wf_name _ (Hw p Hp)). reflexivity.
+    + apply word_wf_name. auto.
+    + rewrite wf_nameb_app, (word_wf_name _ (Hw p Hp)). reflexivity.
+  - rewrite param_table_tokens.
+    assert (Hkey : forall a b, In a ps -> In b ps -> p_key a = p_key b -> a = b).
+    { intros a b Ha Hb E. eapply NoDup_map_key; eauto. }
+    assert (Hps : NoDup ps) by (eapply NoDup_map_inv; eauto).
+    apply NoDup_app_intro; [| apply NoDup_app_intro |].
+    + apply NoDup_map_inj; auto. intros a b Ha Hb E. apply tok_inj in E.
+      apply app_inv_tail in E. auto.
+    + apply NoDup_map_inj; auto. intros a b Ha Hb E. apply tok_inj in E. auto.
+    + apply NoDup_map_inj; auto. intros a b Ha Hb E. apply tok_inj in E.
+      apply app_inv_tail in E. auto.
+    + intros t H1 H2. apply in_map_iff in H1, H2.
+      destruct H1 as [a [Ea Ha]], H2 as [b [Eb Hb]]. subst t. apply tok_inj in Eb.
+      change NAME_SUF with (DOT :: s "name") in Eb.
+      revert Eb. apply word_no_dot. auto.
+    + intros t H1 H2. apply in_map_iff in H1. destruct H1 as [a [Ea Ha]]. subst t.
+      apply in_app_or in H2. destruct H2 as [H2|H2]; apply in_map_iff in H2;
+        destruct H2 as [b [Eb Hb]]; apply tok_inj in Eb.
+      * symmetry in Eb. change LABEL_SUF with (DOT :: s "label") in Eb.
+        revert Eb. apply word_no_dot. auto.
+      * change LABEL_SUF with (DOT :: s "label") in Eb.
+        change NAME_SUF with (DOT :: s "name") in Eb.
+        apply word_dot_split in Eb; auto. destruct Eb as [_ Eb]. discriminate Eb.
+Qed.
+
+Lemma param_table_in : forall ps i p, In p ps ->
+  In (tok (p_key p ++ LABEL_SUF), row_label p i) (param_table ps i) /\
+  In (tok (p_key p), row_value p i) (param_table ps i) /\
+  In (tok (p_key p ++ NAME_SUF), param_name p) (param_table ps i).
+Proof.
+  intros ps i p Hp. unfold param_table. repeat split.
+  - apply in_or_app. left. apply (in_map (fun p => (tok (p_key p ++ s ".label"), row_label p i))). exact Hp.
+  - apply in_or_app. right. apply in_or_app. left.
+    apply (in_map (fun p => (tok (p_key p), row_value p i))). exact Hp.
+  - apply in_or_app. right. apply in_or_app. right.
+    apply (in_map (fun p => (tok (p_key p ++ s ".name"), param_name p))). exact Hp.
+Qed.
+
+(** C09_values *)
+Theorem param_table_values : forall ps i p r,
+  keys_okb ps = true -> In p ps ->
+  sim (param_table ps i) (tok (p_key p) ++ r) = row_value p i ++ sim (param_table ps i) r /\
+  sim (param_table ps i) (tok (p_key p ++ s ".label") ++ r) = row_label p i ++ sim (param_table ps i) r /\
+  sim (param_table ps i) (tok (p_key p ++ s ".name") ++ r) = param_name p ++ sim (param_table ps i) r.
+Proof.
+  intros ps i p r Hk Hp. pose proof (param_table_wf ps i Hk) as Hwf.
+  destruct (param_table_in ps i p Hp) as [A [B C0]].
+  repeat split; apply sim_token; auto.
+Qed.
+
+(** ... and only those: a position at which none of the defined tokens starts
+    is copied. *)
+Theorem param_table_only : forall ps i c r,
+  (forall p, In p ps ->
+     prefixb (tok (p_key p)) (c :: r) = false /\
+     prefixb (tok (p_key p ++ s ".label")) (c :: r) = false /\
+     prefixb (tok (p_key p ++ s ".name")) (c :: r) = false) ->
+  sim (param_table ps i) (c :: r) = c :: sim (param_table ps i) r.
+Proof.
+  intros ps i c r H. apply sim_char. intros t Ht. rewrite param_table_tokens in Ht.
+  apply in_app_or in Ht. destruct Ht as [Ht|Ht]; [|apply in_app_or in Ht; destruct Ht as [Ht|Ht]];
+    apply in_map_iff in Ht; destruct Ht as [p [E Hp]]; subst t; destruct (H p Hp) as [A [B C0]]; auto.
+Qed.
+
+(** the implementation's three loops over the row's dicts compute it *)
+Theorem param_pass_model : forall ps i x,
+  keys_okb ps = true ->
+  token_free (param_table ps i) (sim (param_table ps i) x) = true ->
+  param_pass Model ps i x = sim (param_table ps i) x.
+Proof.
+  intros ps i x Hk Hfree. unfold param_pass, pass. apply seq_eq_sim; auto.
+  apply param_table_wf. exact Hk.
+Qed.
+
+Lemma valid_case_parts : forall c, valid_case c = true ->
+  NoDup (map s_name (c_steps c)) /\
+  ~ In SOURCE (map s_name (c_steps c)) /\
+  str_nodupb (map p_key (c_params c)) = true /\
+  forallb (valid_param (nrows (c_params c))) (c_params c) = true /\
+  (forall k, In k (c_order c) -> k < length (c_steps c)) /\
+  NoDup (c_order c).
+Proof.
+  intros c H. unfold valid_case in H. cbv zeta in H. rewrite !andb_true_iff in H.
+  destruct H as [[[[[[[[H1 H2] H3] H4] H5] H6] H7] H8] H9].
+  repeat split; auto.
+  - apply str_nodupb_NoDup. exact H1.
+  - intros Hin. apply str_mem_In in Hin. rewrite Hin in H2. discriminate H2.
+  - rewrite forallb_forall in H7. intros k Hk. apply Nat.ltb_lt. auto.
+  - apply UtilLemmas.nodupb_NoDup. exact H9.
+Qed.
+
+Lemma valid_case_keys : forall c, valid_case c = true -> keys_okb (c_params c) = true.
+Proof.
+  intros c H. apply valid_case_parts in H. destruct H as [_ [_ [Hnd [Hv _]]]].
+  unfold keys_okb. rewrite Hnd. simpl. rewrite forallb_forall in *. intros p Hp.
+  specialize (Hv p Hp). unfold valid_param in Hv. rewrite !andb_true_iff in Hv. tauto.
 Qed.
